@@ -12,6 +12,7 @@ import (
 var zzEntries = map[string]func(){
 	"ZZ_C13_boson":  ZZ_C13_boson,
 	"ZZ_C13_lepton": ZZ_C13_lepton,
+	"ZZ_CONN":       ZZ_CONN,
 }
 
 type zzCam struct{ x, y, fps int }
